@@ -103,6 +103,11 @@ def systematic(rng, fam):
                     yield {'afi_safi': [1, 133], 'nexthop': '', 'nlri': [{1: '192.0.2.0/24', c: op + str(gen.fs_value(rng, w))}]}, False
         for n in range(33):
             yield {'afi_safi': [1, 133], 'nexthop': '', 'nlri': [{1: gen.prefix4(rng, n, 'rand'), 2: gen.prefix4(rng, n, 'ones')}]}, False
+        # rules around the 240-octet boundary of the 1-octet NLRI length
+        for k in (57, 58, 59, 60, 61, 100):
+            long_rule = {1: gen.prefix4(rng, 24, 'rand'), 5: '|'.join('=%d' % (1000 + i) for i in range(k))}
+            yield {'afi_safi': [1, 133], 'nexthop': '', 'nlri': [long_rule, {1: '192.0.2.0/24'}]}, False
+            yield {'afi_safi': [1, 133], 'withdraw': [long_rule]}, True
 
 
 def run_shard(sh):
